@@ -10,6 +10,9 @@ use std::panic::{self, AssertUnwindSafe};
 thread_local! {
     static LAST_PANIC: RefCell<Option<(String, String)>> = RefCell::new(None);
     static LAST_STEPS: std::cell::Cell<u64> = std::cell::Cell::new(0);
+    /// true while a guarded closure runs on this thread (its panics are expected and reported
+    /// through the return value)
+    static IN_GUARD: std::cell::Cell<bool> = std::cell::Cell::new(false);
 }
 
 /// engine steps consumed by the most recent `guarded` call on this thread
@@ -36,7 +39,7 @@ pub fn install() {
             .location()
             .map(|l| format!("{}:{}", l.file(), l.line()))
             .unwrap_or_else(|| "<unknown>".to_string());
-        if std::thread::current().name() == Some("main") || std::env::var("PVH_PANIC_VERBOSE").is_ok() {
+        if (std::thread::current().name() == Some("main") && msg != "step budget exhausted" && !IN_GUARD.with(|g| g.get())) || std::env::var("PVH_PANIC_VERBOSE").is_ok() {
             // panics on the main thread are harness bugs (cases run on guarded worker threads)
             eprintln!("harness panic: {} at {}", msg, loc);
         }
@@ -79,7 +82,9 @@ pub enum Guarded<T> {
 pub fn guarded<T>(budget: u64, f: impl FnOnce() -> T) -> Guarded<T> {
     proto_vulcan::verif_hooks::reset(budget);
     LAST_PANIC.with(|p| *p.borrow_mut() = None);
+    IN_GUARD.with(|g| g.set(true));
     let r = panic::catch_unwind(AssertUnwindSafe(f));
+    IN_GUARD.with(|g| g.set(false));
     // disarm
     let steps = proto_vulcan::verif_hooks::steps();
     LAST_STEPS.with(|s| s.set(steps));
